@@ -35,7 +35,7 @@ STYLES = ("rest", "google", "numpydoc")
 
 def probes():
     return ["partial_doc_with_2plus_undocumented", "permuted_doc", "import_inference_cmd", "gen_prepend_cmd", "exmod_cmd",
-            "gen_infer_mixed_kinds",
+            "gen_infer_mixed_kinds", "ambiguous_symbol_any",
             "sync_cmd", "doctrans_cmd", "openapi_cmd", "repeated_occurrences", "ops_ok_somewhere"]
 
 
@@ -184,12 +184,19 @@ def command_ops(rng, pr):
     # exmod on a small package
     pkgname = rng.choice(("mypkg", "toolkit"))
     s1, s2 = _spec(rng, "Alpha", 1, 3), _spec(rng, "beta_fn", 1, 3)
+    if rng.random() < 0.6:
+        # names such as Any are exported by several modules cdd knows about: which import line is inferred for them
+        # must not depend on what ran earlier in the process
+        s1["params"].append({"name": "payload", "typ": rng.choice(("Any", "Optional[Any]")), "default": "None",
+                             "doc": "Anything at all"})
+        bump("ambiguous_symbol_any")
     files = {
         "src/%s/__init__.py" % pkgname: "from %s.alpha import Alpha\nfrom %s.sub.beta import beta_fn\n\n__all__ = [\"Alpha\", "
                                         "\"beta_fn\"]\n" % (pkgname, pkgname),
-        "src/%s/alpha.py" % pkgname: "from typing import Optional\n\n\n" + gen.render_class(s1) + "\n__all__ = [\"Alpha\"]\n",
+        "src/%s/alpha.py" % pkgname: "from typing import Any, List, Optional, Union\n\n\n" + gen.render_class(s1) +
+                                     "\n__all__ = [\"Alpha\"]\n",
         "src/%s/sub/__init__.py" % pkgname: "from %s.sub.beta import beta_fn\n\n__all__ = [\"beta_fn\"]\n" % pkgname,
-        "src/%s/sub/beta.py" % pkgname: "from typing import Optional\n\n\n" + gen.render_function(s2) +
+        "src/%s/sub/beta.py" % pkgname: "from typing import Any, List, Optional, Union\n\n\n" + gen.render_function(s2) +
                                         "\n__all__ = [\"beta_fn\"]\n",
     }
     for emit_ in rng.sample(("class", "function", "argparse", "sqlalchemy_table", "sqlalchemy_hybrid"), 2):
@@ -283,11 +290,24 @@ def analyse(tasks, results):
             "argv", [op_by_id[oid].get("fn", "sdk")])[0], k)
         stats["outcomes"][key] = stats["outcomes"].get(key, 0) + 1
     viols = []
+    # one representative per operation kind is minimised and reported; the other disagreeing operations of that kind
+    # are counted in its detail (they share the class)
+    by_kind = {}
+    for oid in sorted(by_op):
+        if len(set(d for _, _, d in by_op[oid])) > 1:
+            by_kind.setdefault(_kind(op_by_id[oid]), []).append(oid)
+    for kind in sorted(by_kind):
+        oid = by_kind[kind][0]
+        v = minimise(oid, op_by_id[oid], by_op[oid], tasks_by_k)
+        if len(by_kind[kind]) > 1:
+            v["detail"] += " (+%d more disagreeing operations of kind %s)" % (len(by_kind[kind]) - 1, kind)
+        viols.append(v)
+    stats["extra"]["disagreeing_operations"] = sum(len(v) for v in by_kind.values())
     for oid in sorted(by_op):
         occ = by_op[oid]
         digs = sorted(set(d for _, _, d in occ))
         if len(digs) > 1:
-            viols.append(minimise(oid, op_by_id[oid], occ, tasks_by_k))
+            continue
         elif len(raw_by_op.get(oid, ())) > 1:
             # identical up to object addresses: the output embeds a repr such as <ast.List object at 0x7f…>
             viols.append({"clause": "K1",
@@ -305,7 +325,7 @@ def analyse(tasks, results):
 
 
 MIN_BUDGET = 70          # child-pair executions per minimised violation
-MAX_MINIMISED = 4        # further disagreeing operations are reported un-minimised (full prefixes in the trace)
+MAX_MINIMISED = 6        # further disagreeing operations are reported un-minimised (full prefixes in the trace)
 _minimised = [0]
 
 
